@@ -805,6 +805,12 @@ fn law_closepath(a: &[f64]) -> Option<(String, String)> {
     if !((closing - want).abs() <= 4.0 * EPS * (last.x * start.y).abs().max((last.y * start.x).abs())) {
         return fail("closepath:line-area", format!("Line({:?},{:?}).signed_area() = {:e}, cross/2 = {:e}", last, start, closing, want));
     }
+    // a zero-length line contributes exactly zero, also in floating point (x*y - y*x with equal roundings)
+    for p in [last, start] {
+        if Line::new(p, p).signed_area() != 0.0 {
+            return fail("closepath:zero-length-line", format!("Line({:?},{:?}).signed_area() = {:e}", p, p, Line::new(p, p).signed_area()));
+        }
+    }
     if !((a_closed - (a_open + want)).abs() <= tol) {
         return fail(
             if last != start { "closepath:closing-line" } else { "closepath:zero-length" },
